@@ -114,6 +114,8 @@ def import_sparse_array(
     vals = np.zeros((nz, 1))
     for k in range(nz):
         line = fp.readline().strip().split(" ")
+        if len(line) != n + 1:
+            assert False, f"Nonzero {k}: expected {n} subscripts and a value, found {len(line)} fields"
         subs[k, :] = [np.int64(i) - index_base for i in line[:-1]]
         vals[k, 0] = line[-1]
     return subs, vals
